@@ -746,7 +746,79 @@ fn minimise_isolated(exe: &Path, a: &RunArgs, steps: Vec<Step>, rule: &str, abor
 }
 
 /// Minimise, write the replay file, replay it in a fresh process, and only then report.
+/// The supervisor never executes real code itself: minimisation and the choice of what to report run in a
+/// child process (`simctl finalise`), because a fault that corrupts memory (an unchecked write past a buffer)
+/// can take down whichever process re-executes it. If that child dies, the finding is reported unminimised,
+/// after a fresh process has reproduced it.
 fn finalise_violation(exe: &Path, a: &RunArgs, v: Violation) -> Result<(Violation, PathBuf), String> {
+    let tag = format!("{}-{}-{}-{}", a.prop.id(), feature_tag(), std::process::id(), v.run);
+    let vf = a.tmp.join(format!("{}-finalise-in.json", tag));
+    let of = a.tmp.join(format!("{}-finalise-out.json", tag));
+    let _ = std::fs::remove_file(&of);
+    std::fs::write(&vf, v.to_json().compact()).map_err(|e| format!("cannot write {}: {}", vf.display(), e))?;
+    let mut cmd = Command::new(exe);
+    cmd.arg("finalise").arg(a.prop.id()).arg(&a.tier).arg("--seed").arg(a.seed.to_string()).arg("--workers").arg(a.workers.to_string());
+    cmd.arg("--replay-dir").arg(&a.replay_dir).arg("--tmp").arg(&a.tmp).arg("--violation").arg(&vf).arg("--out").arg(&of);
+    if let Some(r) = a.runs_override {
+        cmd.arg("--runs").arg(r.to_string());
+    }
+    let st = cmd.stdin(Stdio::null()).stdout(Stdio::null()).stderr(Stdio::null()).status();
+    let _ = std::fs::remove_file(&vf);
+    let parsed = std::fs::read_to_string(&of).ok().and_then(|t| json::parse(&t).ok());
+    let _ = std::fs::remove_file(&of);
+    if let (Ok(s), Some(j)) = (&st, &parsed) {
+        if s.code() == Some(0) {
+            if let Some(e) = j.get("error").and_then(|e| e.str()) {
+                return Err(e.to_string());
+            }
+            if let (Some(v2), Some(p)) = (j.get("violation").and_then(Violation::from_json), j.get("path").and_then(|p| p.str())) {
+                return Ok((v2, PathBuf::from(p)));
+            }
+        }
+    }
+    // the finalising child died or left nothing: report the worker's own trace, verified in a fresh process
+    let steps = steps_from_json(&v.steps).ok_or_else(|| "harness: violation trace does not parse".to_string())?;
+    let (detail, log_hash, lines) = if v.aborted {
+        fresh_process_fails(exe, a, &steps, &v.rule, true).ok_or_else(|| format!("finding rule={} run={}: the finalising process died and the trace did not reproduce in a fresh process; not reported", v.rule, v.run))?;
+        (v.detail.clone(), 0, vec![])
+    } else {
+        let (h, d, l) = fresh_process_outcome(exe, a, &steps, &v.rule).ok_or_else(|| format!("finding rule={} run={}: the finalising process died and the trace did not reproduce in a fresh process; not reported", v.rule, v.run))?;
+        (format!("{} [not minimised: the process that re-executed minimisation candidates died ({:?}) - the fault corrupts memory]", d, st.as_ref().map(|s| s.to_string()).unwrap_or_default()), h, l)
+    };
+    let j = replay_json(a, &v.rule, &detail, v.run, &steps, log_hash, &lines, v.aborted);
+    let text = j.pretty();
+    let path = a.replay_dir.join(format!("{}-{}-{:016x}.json", a.prop.id(), a.seed, crate::prng::fnv(text.as_bytes())));
+    std::fs::write(&path, text).map_err(|e| format!("cannot write replay file: {}", e))?;
+    let out = Command::new(exe).arg("replay").arg(&path).stdin(Stdio::null()).stdout(Stdio::piped()).stderr(Stdio::null()).output().map_err(|e| e.to_string())?;
+    use std::os::unix::process::ExitStatusExt;
+    let reproduced = if v.aborted { out.status.signal().is_some() } else { out.status.code() == Some(1) && String::from_utf8_lossy(&out.stdout).contains("REPRODUCED") };
+    if !reproduced {
+        let _ = std::fs::remove_file(&path);
+        return Err(format!("replay of {} in a fresh process did not reproduce (rule {}); not reported", path.display(), v.rule));
+    }
+    let mut v2 = v;
+    v2.detail = detail;
+    v2.log_hash = log_hash;
+    Ok((v2, path))
+}
+
+/// Body of `simctl finalise`: what used to run inside the supervisor.
+pub fn finalise_child(a: &RunArgs, violation_file: &Path, out_file: &Path) -> i32 {
+    let exe = std::env::current_exe().expect("current_exe");
+    let Some(v) = std::fs::read_to_string(violation_file).ok().and_then(|t| json::parse(&t).ok()).and_then(|j| Violation::from_json(&j)) else {
+        return 2;
+    };
+    let j = match finalise_violation_inproc(&exe, a, v) {
+        Ok((v2, p)) => obj(vec![("violation", v2.to_json()), ("path", s(p.display().to_string()))]),
+        Err(e) => obj(vec![("error", s(e))]),
+    };
+    if std::fs::write(out_file, j.compact()).is_err() {
+        return 2;
+    }
+    0
+}
+
+fn finalise_violation_inproc(exe: &Path, a: &RunArgs, v: Violation) -> Result<(Violation, PathBuf), String> {
     let steps = steps_from_json(&v.steps).ok_or_else(|| "harness: violation trace does not parse".to_string())?;
     // the worker's finding must reproduce in a fresh process before anything else
     if v.rule != "slow" && fresh_process_fails(exe, a, &steps, &v.rule, v.aborted).is_none() {
